@@ -104,6 +104,13 @@ WELL = {
     'proof_end': ('A\\begin{proof}', {'pack': 'amsthm'}),
     'gls_end': ('\\gls@defglossaryentry{ab}{name={AB},text={some long text}}\\gls{ab}', {'pack': 'glossaries'}),
     'cref_end': ('\\usepackage{cleveref}\\cref{q}', {'pack': 'cleveref'}),
+    # poor-man replacements with multi-character tokens (blank runs, --, \\,)
+    'cref_sed': ('\\usepackage[poorman]{cleveref}\\YYCleverefInput{/verif/vf/data/c.sed}'
+                 'A \\cref{x} B \\crefrange{a}{b} C', {}),
+    'cref_sed_end': ('\\usepackage[poorman]{cleveref}\\YYCleverefInput{/verif/vf/data/c.sed}'
+                     'A \\cref{x}', {}),
+    'crefrange_sed_end': ('\\usepackage[poorman]{cleveref}\\YYCleverefInput{/verif/vf/data/c.sed}'
+                          'A \\crefrange{a}{b}', {}),
     'cite_end': ('\\cite{k}', {}),
     'ref_end': ('\\ref{k}', {}),
     'heading_end': ('\\section{A}', {}),
